@@ -1,123 +1,278 @@
-"""Registry of solver queries (Kani harnesses) per property."""
+"""Registry of solver queries (Kani harnesses): which property they serve, tier,
+build profiles, caps and the bounds they cover (copied into the evidence)."""
 
 COMMON_ASSUMPTIONS = [
     "Kani 0.68 translation of MIR to GOTO, CBMC 6.11 symbolic execution and CaDiCaL are sound",
     "rustc, core and alloc as compiled by Kani's pinned toolchain; allocation never fails",
     "every verdict is bounded: it covers exactly the symbolic ranges named in 'bounds' with unwinding assertions on, nothing outside",
+    "the oracles in /verif/harness/ref (ISO/IEC 16022 codecs, Annex F placement, Table 7 / ISO 21471 attributes, GF(256) shift-xor arithmetic, charset rules) are transcribed correctly from the standards",
 ]
 
 KF_DEFAULTS = {}
 
-def H_(name, mod, props, **kw):
-    d = dict(name=name, mod=mod, props=props)
-    d.update(kw)
-    return d
-
 ALL = []
 
-def reg(*a, **k):
-    ALL.append(H_(*a, **k))
 
-DEC = ["decodation::decode_ascii", "decodation::decode_c40_like", "decodation::decode_x12", "decodation::decode_edifact",
-       "decodation::decode_base256", "decodation::Reader", "decodation::decode_c40_tuple"]
-for n in ("ascii_1","ascii_2","ascii_3","c40_2","c40_3","c40_4","text_2","text_3","text_4","x12_3","x12_5","edifact_3","edifact_5","edifact_7","b256_3","b256_5"):
-    reg("acc_" + n, "dec", ["C04", "C05"], profiles=["dev"], cap=600, bounds="", encodes=[])
-reg("np_tuple", "dec", ["C05", "C04"], profiles=["dev", "rel"], cap=60,
-    bounds="both codewords of a C40/Text/X12 pair: all 65536 values", encodes=["decodation::decode_c40_tuple"])
-reg("eci_read_any", "dec", ["C05", "C15"], profiles=["dev", "rel"], cap=120,
-    bounds="3 arbitrary codewords after the ECI codeword, length 0..=3", encodes=["decodation::read_eci"])
-reg("acc_b256_pos", "dec", ["C04"], cap=300, bounds="Base256 field of 1..=2 symbolic bytes, explicit length or length 0, at symbolic absolute position 0..=1555", encodes=["decodation::decode_base256", "decodation::derandomize_255_state"])
-reg("acc_b256_len2", "dec", ["C04"], cap=300, bounds="two-codeword Base256 length 250..=1555 at symbolic position 0..=1300", encodes=["decodation::decode_base256"])
-reg("acc_pad_pos", "dec", ["C04", "C05"], cap=300, bounds="PAD + 0..=3 pads at symbolic position 0..=1554, optionally one pad corrupted by a symbolic delta", encodes=["decodation::decode_ascii", "decodation::derandomize_253_state"])
-reg("acc_ascii_eci", "dec", ["C04"], cap=300, bounds="ASCII char, ECI codeword, one-codeword designator, two ASCII chars, all symbolic", encodes=["decodation::decode_ascii", "decodation::read_eci"])
-reg("oracle_c40_rt", "dec", ["C04"], cap=300, role="oracle-validation", bounds="reference C40/Text encoder -> reference decoder, 2 symbolic chars", encodes=[])
-reg("oracle_edifact_rt", "dec", ["C04"], cap=300, role="oracle-validation", bounds="reference EDIFACT encoder -> reference decoder, 1..=4 symbolic chars", encodes=[])
+def reg(name, mod, props, **kw):
+    d = dict(name=name, mod=mod, props=props)
+    d.update(kw)
+    ALL.append(d)
 
+
+Q, T = "quick", "thorough"
+
+# --------------------------------------------------------------------------- decoders (C04, C05)
+DEC = "decodation::"
+_dec_fn = {"ascii": "decode_ascii", "c40": "decode_c40_like", "text": "decode_c40_like", "x12": "decode_x12",
+           "edifact": "decode_edifact", "b256": "decode_base256"}
+for n, lens, tier, cap in (("ascii_1", "0..=1", Q, 600), ("ascii_2", "2", Q, 900), ("ascii_3", "3", T, 1800),
+                           ("c40_2", "1..=2", Q, 600), ("c40_3", "3", Q, 600), ("text_2", "1..=2", Q, 600), ("text_3", "3", Q, 600),
+                           ("x12_3", "1..=3", Q, 600), ("x12_5", "4..=5", Q, 600),
+                           ("edifact_3", "1..=3", Q, 600), ("edifact_5", "4..=5", Q, 600), ("edifact_7", "6..=7", Q, 600),
+                           ("b256_3", "1..=3", Q, 600), ("b256_5", "4..=5", Q, 600)):
+    m = n.split("_")[0]
+    reg("acc_" + n, "dec", ["C04", "C05"], tier=tier, cap=cap,
+        bounds="one %s run of %s arbitrary codewords (all 256 values each), run to the end of the stream; crate decoder vs independent ISO/IEC 16022 decoder: accepted by the reference => accepted with the same bytes, end index and next mode; never panics; makes progress" % (m, lens),
+        encodes=[DEC + _dec_fn[m], DEC + "Reader", DEC + "decode_c40_tuple"] + ([DEC + "read_eci"] if m == "ascii" else []))
+for n in ("c40", "text"):
+    reg("acc_%s_st" % n, "dec", ["C04", "C05"], tier=T, cap=2400,
+        bounds="%s: for each of the 7 non-initial decoder states (pending shift set x pending upper shift) a concrete codeword pair producing it, followed by 2 arbitrary codewords (one inductive step over pairs)" % n,
+        encodes=[DEC + "decode_c40_like"])
+reg("np_tuple", "dec", ["C05", "C04"], profiles=["dev", "rel"], cap=120,
+    bounds="both codewords of a C40/Text/X12 pair: all 65536 values", encodes=[DEC + "decode_c40_tuple"])
+reg("eci_read_any", "dec", ["C05", "C15"], profiles=["dev", "rel"], cap=300,
+    bounds="0..=3 arbitrary codewords after the ECI codeword: Ok(c) exactly for the one/two/three-codeword forms, with the standard's value", encodes=[DEC + "read_eci"])
+reg("acc_b256_pos", "dec", ["C04"], cap=300,
+    bounds="Base256 field of 1..=2 symbolic bytes, explicit length or length 0 (to end of symbol), at a symbolic absolute position 0..=1555", encodes=[DEC + "decode_base256", DEC + "derandomize_255_state"])
+reg("acc_b256_len2", "dec", ["C04"], cap=300,
+    bounds="two-codeword Base256 length 250..=1555 (symbolic) at a symbolic position 0..=1300", encodes=[DEC + "decode_base256"])
+reg("acc_pad_pos", "dec", ["C04", "C05"], tier=T, cap=1200,
+    bounds="PAD + 0..=3 pads at a symbolic position 0..=1554, optionally one pad corrupted by a symbolic delta", encodes=[DEC + "decode_ascii", DEC + "derandomize_253_state"])
+reg("acc_ascii_eci", "dec", ["C04"], tier=T, cap=1200,
+    bounds="ASCII char, ECI codeword, one-codeword designator, two ASCII chars, all symbolic", encodes=[DEC + "decode_ascii", DEC + "read_eci"])
+reg("oracle_c40_rt", "dec", ["C04"], cap=300, role="oracle-validation",
+    bounds="reference C40/Text encoder -> reference decoder, 2 symbolic chars", encodes=[])
+reg("oracle_edifact_rt", "dec", ["C04"], cap=300, role="oracle-validation",
+    bounds="reference EDIFACT encoder -> reference decoder, 1..=4 symbolic chars", encodes=[])
+
+# --------------------------------------------------------------------------- ECI / charsets / string API (C15, C14, C05)
 ECI = ["decodation::eci::convert_chunk", "decodation::eci::decode_iso_8859_9", "decodation::eci::decode_iso_8859_11", "data::latin1_to_utf8_mut"]
-reg("eci_tab_3", "eci", ["C15", "C05"], cap=200, bounds="one byte, all 256 values, ECI 0 and 3", encodes=ECI)
-reg("eci_tab_11", "eci", ["C15", "C05"], cap=200, bounds="one byte, all 256 values, ECI 11", encodes=ECI)
-reg("eci_tab_13", "eci", ["C15", "C05"], cap=200, bounds="one byte, all 256 values, ECI 13", encodes=ECI)
+reg("eci_tab_3", "eci", ["C15", "C05"], cap=600, bounds="one byte, all 256 values, ECI 0 and 3 vs ISO-8859-1", encodes=ECI)
+reg("eci_tab_11", "eci", ["C15", "C05"], cap=600, bounds="one byte, all 256 values, ECI 11 vs ISO-8859-9", encodes=ECI)
+reg("eci_tab_13", "eci", ["C15", "C05"], cap=600, bounds="one byte, all 256 values, ECI 13 vs ISO-8859-11", encodes=ECI)
 reg("eci_ascii_2", "eci", ["C15", "C05"], cap=600, bounds="0, 1 and 2 arbitrary bytes under ECI 27", encodes=ECI)
 reg("eci_utf8_2", "eci", ["C15", "C05"], cap=600, bounds="0, 1 and 2 arbitrary bytes under ECI 26", encodes=ECI)
 reg("eci_utf8_3", "eci", ["C15", "C05"], cap=900, bounds="3 arbitrary bytes under ECI 26", encodes=ECI)
-reg("eci_utf8_4", "eci", ["C15", "C05"], cap=1800, tier="thorough", bounds="4 arbitrary bytes under ECI 26", encodes=ECI)
-reg("np_eci_chunk", "eci", ["C05"], profiles=["dev", "rel"], cap=300, bounds="any u32 ECI number, 0..=2 arbitrary bytes", encodes=ECI)
-reg("eci_convert_spans", "eci", ["C14", "C05"], cap=400, bounds="0..=3 arbitrary bytes, one ECI span (3, 11, 26 or 27) at a symbolic offset", encodes=["decodation::eci::convert"] + ECI)
-reg("str_latin1_char", "data", ["C14"], cap=300, bounds="one arbitrary Unicode scalar value (all 0x10F800)", encodes=["data::utf8_to_latin1"])
+reg("eci_utf8_4", "eci", ["C15"], cap=2400, tier=T, role="attempt", bounds="4 arbitrary bytes under ECI 26", encodes=ECI)
+reg("np_eci_chunk", "eci", ["C05"], profiles=["dev", "rel"], cap=900, bounds="any u32 ECI number, 0, 1 and 2 arbitrary bytes", encodes=ECI)
+reg("str_latin1_char", "data", ["C14"], cap=900, bounds="one arbitrary Unicode scalar value (all 1,112,064)", encodes=["data::utf8_to_latin1"])
 reg("str_latin1_byte", "data", ["C14"], cap=300, bounds="one byte, all 256 values", encodes=["data::latin1_to_utf8", "data::latin1_to_utf8_mut"])
-reg("str_latin1_two", "data", ["C14"], cap=300, bounds="two printable Latin-1 bytes, round trip through both helpers", encodes=["data::latin1_to_utf8", "data::utf8_to_latin1"])
-reg("str_dispatch_1", "lib", ["C14"], cap=900, stubbing=True, bounds="every one-character string (any Unicode scalar value); DataMatrixBuilder::encode_eci replaced by a recording stub", encodes=["DataMatrixBuilder::encode_str", "data::utf8_to_latin1"])
-reg("str_dispatch", "lib", ["C14"], cap=3600, mem_gb=20, tier="thorough", role="attempt", stubbing=True, bounds="every string of 1..=2 arbitrary Unicode scalar values; DataMatrixBuilder::encode_eci replaced by a recording stub",
-    encodes=["DataMatrixBuilder::encode_str", "data::utf8_to_latin1"])
+reg("str_latin1_two", "data", ["C14"], cap=1800, tier=T, bounds="two printable Latin-1 bytes, round trip through both helpers", encodes=["data::latin1_to_utf8", "data::utf8_to_latin1"])
+reg("str_dispatch_1", "lib", ["C14"], cap=1200, stubbing=True,
+    bounds="every one-character string (any Unicode scalar value); DataMatrixBuilder::encode_eci replaced by a recording stub", encodes=["DataMatrixBuilder::encode_str", "data::utf8_to_latin1"])
+reg("str_dispatch", "lib", ["C14"], cap=3600, mem_gb=20, tier=T, role="attempt", stubbing=True,
+    bounds="every string of 1..=2 arbitrary Unicode scalar values; same stub", encodes=["DataMatrixBuilder::encode_str", "data::utf8_to_latin1"])
 
-for n in ("acc_c40_st","acc_text_st"):
-    reg(n, "dec", ["C04","C05"], cap=600, bounds="", encodes=["decodation::decode_c40_like"])
-for n in ("ascii_2","ascii_3","c40_1","c40_2","c40_3","text_2","text_3","x12_3","x12_5","edifact_2","edifact_4","edifact_5","b256_2","b256_3"):
-    reg("conf_" + n, "enc", ["C02", "C11", "C01"], cap=900, bounds="", encodes=[])
-reg("eci_rt", "enc", ["C15", "C02", "C11"], cap=300, bounds="every ECI number 0..=999999", encodes=["encodation::GenericDataEncoder::write_eci", "decodation::read_eci"])
-for n in ("mac_iff_12", "mac_iff_9_10", "mac_iff_7_8", "mac_iff_short"):
-    reg(n, "enc", ["C16", "C11", "C01"], cap=600, bounds="", encodes=["encodation::GenericDataEncoder::with_size", "encodation::GenericDataEncoder::use_macro_if_possible", "GenericDataEncoder::eat/backup/rest"])
-reg("pad_conf", "enc", ["C02", "C01"], cap=600, bounds="", encodes=["encodation::GenericDataEncoder::add_padding"])
-SYM = ["symbol_size::SymbolSize::num_data_codewords", "symbol_size::SymbolSize::block_setup", "symbol_size::SymbolSize::capacity", "symbol_size::SymbolSize::is_square/is_dmre/has_padding_modules", "symbol_size::BlockSetup::content_width/height"]
-reg("cat_attr", "sym", ["C12"], cap=300, bounds="symbolic index over all 48 sizes", encodes=SYM)
-reg("cat_ord", "sym", ["C12"], cap=600, bounds="three symbolic indices over all 48 sizes", encodes=["symbol_size::<SymbolSize as Ord>::cmp", "PartialOrd", "PartialEq"] + SYM[:2])
-reg("cat_all_once", "sym", ["C12"], cap=300, bounds="closed term: SYMBOL_SIZES array x symbolic variant index", encodes=["symbol_size::SYMBOL_SIZES"])
-reg("cat_caps_table", "sym", ["C12", "C02"], cap=300, role="oracle-validation", bounds="symbolic index over all 48 sizes", encodes=SYM[:1])
-for n in ("cat_filter_w_ei", "cat_filter_w_ie", "cat_filter_w_uu", "cat_filter_w_eu", "cat_filter_w_ui", "cat_filter_h_ei", "cat_filter_h_ie", "cat_filter_h_eu", "cat_filter_h_ue", "cat_filter_sq", "cat_filter_re"):
-    reg(n, "sym", ["C12"], cap=900, bounds="concrete 3-symbol list, symbolic (Bound, Bound) with values 0..=40 and kinds unbounded/included/excluded, symbolic filter kind", encodes=["SymbolList::enforce_width_in", "SymbolList::enforce_height_in", "SymbolList::enforce_square", "SymbolList::enforce_rectangular", "SymbolList::with_whitelist", "SymbolList::contains"])
-for n in ("cat_first_0", "cat_first_1", "cat_first_2", "cat_first_3"):
-    reg(n, "sym", ["C12", "C11", "C02"], cap=900, bounds="concrete list of 0..=3 symbols, symbolic need 0..=3200", encodes=["SymbolList::first_symbol_big_enough_for", "SymbolList::upper_limit_for_number_of_codewords", "SymbolList::max_capacity", "SymbolList::is_empty"])
-reg("gf_mul", "gf", ["C06"], cap=300, bounds="all 65536 operand pairs", encodes=["galois::<GF as Mul>::mul", "galois::LOG", "galois::ANTI_LOG"])
+# --------------------------------------------------------------------------- encoders (C02, C11, C01), prelude (C16), ECI writer (C15)
+_enc_fn = {"ascii": ["encodation::ascii::encode"], "c40": ["encodation::c40::encode", "c40::encode_generic", "c40::handle_end", "c40::write_three_values"],
+           "text": ["encodation::text::encode", "c40::encode_generic", "c40::handle_end"], "x12": ["encodation::x12::encode"],
+           "edifact": ["encodation::edifact::encode", "edifact::handle_end", "edifact::write4"], "b256": ["encodation::base256::encode", "base256::write_length"]}
+for n, tier, cap in (("ascii_2", Q, 600), ("ascii_3", Q, 900), ("c40_1", Q, 900), ("c40_2", T, 2400), ("c40_3", T, 3600),
+                     ("text_2", T, 2400), ("text_3", T, 3600), ("x12_3", Q, 900), ("x12_5", Q, 1200),
+                     ("edifact_2", Q, 900), ("edifact_4", Q, 1200), ("edifact_5", T, 1800), ("b256_2", Q, 900), ("b256_3", Q, 1200)):
+    m, l = n.split("_")
+    reg("conf_" + n, "enc", ["C02", "C11", "C01"], tier=tier, cap=cap, mem_gb=16 if tier == T else 8,
+        role="attempt" if n in ("c40_3", "text_3") else "lemma",
+        bounds="real %s encoder over the array-backed context HEnc: %s arbitrary characters (%s), 1..=8 codewords already present, symbol list = any 1..3 ascending capacities from the real catalogue (<= 43), planned switch to ASCII at any character or none; stream finished as the dispatch loop does (rest in ASCII, UNLATCH, PAD, 253-state pads) and decoded by the independent ISO/IEC 16022 decoder: output == input, no assertion/overflow/index failure" % (m, l, "EDIFACT-encodable" if m == "edifact" else "X12-native in the full triples" if m == "x12" else "all 256 values"),
+        encodes=_enc_fn[m] + ["encodation::ascii::encode", "encodation::ascii::encoding_size"])
+reg("eci_rt", "enc", ["C15", "C02", "C11"], cap=600, bounds="every ECI number 0..=999999: form per ISO/IEC 16022 and read back by read_eci",
+    encodes=["encodation::GenericDataEncoder::write_eci", "decodation::read_eci"])
+MAC = ["encodation::GenericDataEncoder::with_size", "encodation::GenericDataEncoder::use_macro_if_possible", "GenericDataEncoder::eat", "GenericDataEncoder::backup", "GenericDataEncoder::rest"]
+reg("mac_iff_12", "enc", ["C16", "C11", "C01"], cap=600, bounds="every 12-byte input x FNC1 flag; then eat k<=3, backup j<=k", encodes=MAC)
+reg("mac_iff_9_10", "enc", ["C16", "C11", "C01"], cap=600, bounds="every 9- and 10-byte input x FNC1 flag; cursor as above", encodes=MAC)
+reg("mac_iff_7_8", "enc", ["C16", "C11", "C01"], cap=600, bounds="every 7- and 8-byte input (bare header, header+1) x FNC1 flag", encodes=MAC)
+reg("mac_iff_short", "enc", ["C16", "C11"], cap=300, bounds="every input of length 0, 1, 2, 5 x FNC1 flag", encodes=MAC)
+reg("pad_conf", "enc", ["C02", "C01"], cap=900, bounds="every symbol size with <= 64 data codewords (symbolic), 0..=3 free codewords, ASCII or non-ASCII mode at the end",
+    encodes=["encodation::GenericDataEncoder::add_padding"])
+
+# --------------------------------------------------------------------------- planner coupling (C18, C11)
+_plan_fn = {"ascii": "planner::ascii::AsciiPlan", "c40": "planner::c40::C40LikePlan<C40Charset>", "text": "planner::c40::C40LikePlan<TextCharset>",
+            "x12": "planner::x12::X12Plan", "edifact": "planner::edifact::EdifactPlan", "b256": "planner::base256::Base256Plan"}
+for n, tier, cap in (("ascii_3", T, 2400), ("c40_2", Q, 1200), ("c40_3", T, 2400), ("text_2", Q, 1200), ("x12_3", Q, 900), ("x12_4", T, 1800), ("x12_5", T, 2400),
+                     ("edifact_2", Q, 900), ("edifact_3", Q, 1200), ("edifact_4", T, 2400), ("edifact_5", T, 2400), ("b256_2", Q, 900)):
+    m, l = n.split("_")
+    reg("cpl_" + n, "plan", ["C18", "C11"], tier=tier, cap=cap, mem_gb=16,
+        bounds="%s: a run of %s arbitrary characters to the end of the data, 1..=10 codewords already written, any 1..3 ascending real capacities: plan stepped with step/cost/mode_switch_cost (no overflow, no assertion), and the real encoder never needs a larger symbol than ceil(cost) selects" % (m, l),
+        encodes=[_plan_fn[m] + "::{step,cost,mode_switch_cost}", "planner::frac::Frac"] + _enc_fn[m])
+
+# --------------------------------------------------------------------------- symbol catalogue (C12), list queries (C11, C02)
+SYM = ["symbol_size::SymbolSize::num_data_codewords", "symbol_size::SymbolSize::block_setup", "symbol_size::SymbolSize::capacity",
+       "symbol_size::SymbolSize::is_square/is_dmre/has_padding_modules", "symbol_size::BlockSetup::content_width/height"]
+reg("cat_attr", "sym", ["C12"], cap=300, bounds="symbolic index over all 48 sizes, every attribute vs ISO/IEC 16022 Table 7 / ISO 21471", encodes=SYM)
+reg("cat_ord", "sym", ["C12"], cap=600, bounds="three symbolic indices over all 48 sizes: unique dimensions, Ord total/consistent with Eq/monotone in capacity",
+    encodes=["symbol_size::<SymbolSize as Ord>::cmp", "PartialOrd", "PartialEq"] + SYM[:2])
+reg("cat_all_once", "sym", ["C12"], cap=300, bounds="closed term: SYMBOL_SIZES x symbolic variant index: each variant once, strictly ascending", encodes=["symbol_size::SYMBOL_SIZES"])
+reg("cat_caps_table", "sym", ["C12", "C02"], cap=300, role="oracle-validation", bounds="symbolic index over all 48 sizes: capacities <= 43 are in the harness table", encodes=SYM[:1])
+FILT = ["SymbolList::enforce_width_in", "SymbolList::enforce_height_in", "SymbolList::with_whitelist", "SymbolList::contains"]
+for n in ("w_ei", "w_ie", "w_uu", "w_eu", "w_ui", "h_ei", "h_ie", "h_eu", "h_ue"):
+    reg("cat_filter_" + n, "sym", ["C12"], cap=900,
+        bounds="one-symbol list, %s filter, bound kinds (lower,upper) = %s (u unbounded, i included, e excluded), both bound values symbolic 0..=40" % ("width" if n[0] == "w" else "height", n[2:]), encodes=FILT)
+reg("cat_filter_sq", "sym", ["C12"], cap=600, bounds="enforce_square on a square and a rectangular one-symbol list", encodes=["SymbolList::enforce_square"])
+reg("cat_filter_re", "sym", ["C12"], cap=600, bounds="enforce_rectangular on a square and a rectangular one-symbol list", encodes=["SymbolList::enforce_rectangular"])
+for n, lst in (("0", "the empty list"), ("1", "[Square14]"), ("2", "[Square144, Square10]"), ("3", "[Square12, Rect8x18, Square10]")):
+    reg("cat_first_" + n, "sym", ["C12", "C11", "C02"], cap=900, bounds="%s, symbolic need 0..=3200: first symbol in Ord that is large enough; upper limit None iff list empty; max_capacity" % lst,
+        encodes=["SymbolList::first_symbol_big_enough_for", "SymbolList::upper_limit_for_number_of_codewords", "SymbolList::max_capacity", "SymbolList::is_empty"])
+reg("stub_consts_ok", "sym", ["C08", "C05", "C12"], cap=300, role="stub-validation", bounds="closed terms: stub constants == real block_setup; symbolic index: every size has >= 100 modules", encodes=SYM[:2])
+
+# --------------------------------------------------------------------------- Reed-Solomon encoder (C06)
+reg("gf_mul", "gf", ["C06"], cap=300, bounds="all 65536 operand pairs: table multiplication == shift-xor multiplication mod 0x12D", encodes=["galois::<GF as Mul>::mul", "galois::LOG", "galois::ANTI_LOG"])
 reg("gf_div", "gf", ["C06", "C05"], cap=300, bounds="all dividends x all non-zero divisors", encodes=["galois::<GF as Div>::div"])
 reg("gf_log_pow", "gf", ["C06"], cap=300, bounds="all non-zero elements; all exponents 0..=254", encodes=["galois::GF::log", "galois::GF::primitive_power", "Add/Sub/Neg"])
-for n in "abcdef":
-    reg("rs_gen_" + n, "ec", ["C06"], cap=900, mem_gb=16, bounds="closed terms: generator polynomials of a group of degrees vs prod (x + 2^i)", encodes=["errorcode::GENERATOR_POLYNOMIALS", "errorcode::generator"])
-reg("rs_gen_exists", "ec", ["C06", "C12"], cap=300, bounds="symbolic index over the 48 sizes", encodes=["errorcode::generator", "SymbolSize::block_setup"])
+for n, ks in (("a", "5,7,10,11,12,14,15,18"), ("b", "20,22,24,27,28"), ("c", "32,34,36,38"), ("d", "41,42,46"), ("e", "48,50,56"), ("f", "62,68")):
+    reg("rs_gen_" + n, "ec", ["C06"], cap=1200, mem_gb=16, bounds="closed terms: generator polynomials of degree %s == prod_{i=1..k}(x + 2^i) in shift-xor arithmetic" % ks,
+        encodes=["errorcode::GENERATOR_POLYNOMIALS", "errorcode::generator"])
+reg("rs_gen_exists", "ec", ["C06", "C12"], cap=300, bounds="symbolic index over the 48 sizes: generator(k) exists, monic, count = blocks x k", encodes=["errorcode::generator", "SymbolSize::block_setup"])
 for n in ("5_11", "12_18", "20", "22", "24", "27", "28", "32", "34", "36", "38", "41", "42", "46", "48", "50", "56", "62", "68"):
-    reg("rs_step_" + n, "ec", ["C06"], cap=900, bounds="one LFSR step from an arbitrary register state (k symbolic bytes) with an arbitrary data byte", encodes=["errorcode::ecc_block", "errorcode::generator"])
-for n in ("sq10", "sq52", "sq64", "sq72", "sq104", "sq132", "sq144", "r8x32"):
-    reg("rs_il_" + n, "ec", ["C06", "C01"], cap=1200, mem_gb=16, bounds="all data codewords zero except the last one of every interleaved block (symbolic)", encodes=["errorcode::encode_error", "errorcode::ecc_block"])
-reg("rs_il2_sq144", "ec", ["C06"], cap=1800, mem_gb=16, tier="thorough", bounds="144x144: the last 20 data codewords symbolic (two per block), the rest zero", encodes=["errorcode::encode_error"])
-PL = ["placement::IndexTraversal::run", "placement::IndexTraversal::utah", "placement::IndexTraversal::corner1..4", "placement::IndexTraversal::idx"]
-for n in ("sq10","sq12","sq14","sq16","sq18","sq20","sq22","sq24","sq26","sq32","sq36","sq40","sq44","r8x18","r8x32","r12x26","r12x36","r16x36","r16x48","r8x48","r8x64","r8x80","r8x96","r8x120","r8x144","r12x64","r12x88","r16x64","r20x36","r20x44","r20x64","r22x48","r24x48","r24x64","r26x40","r26x48","r26x64"):
-    reg("pl_idx_" + n, "place", ["C07", "C01"], cap=1800, mem_gb=16, bounds="closed term per shape: the complete traversal vs Annex F", encodes=PL)
-reg("pl_cell_any", "place", ["C07"], cap=900, bounds="symbolic even mapping matrix 6..=132 x 6..=132, symbolic (i, j) inside it", encodes=PL[1:])
-for n in ("sq10", "sq12", "r8x18"):
-    reg("pl_rw_" + n, "place", ["C07", "C01"], cap=1800, mem_gb=16, bounds="all codewords of the symbol symbolic", encodes=["placement::MatrixMap::new_with_codewords", "copy_from_codewords", "traverse_mut", "bits_mut", "write_padding", "codewords", "traverse"] + PL)
-for n in ("sq10", "r8x18", "r8x32", "sq32", "r12x36", "r8x64"):
-    reg("fd_render_" + n, "place", ["C08", "C01"], cap=1800, mem_gb=16, bounds="every mapping-matrix entry symbolic", encodes=["placement::MatrixMap::bitmap", "placement::MatrixMap::new"])
-reg("synd_eval", "ecdec", ["C09", "C03", "C06"], cap=600, bounds="4 symbolic codewords, 3 syndromes", encodes=["decoding::primitive_element_evaluation"])
-reg("chien_lin", "ecdec", ["C05", "C03", "C09"], profiles=["dev", "rel"], cap=300, bounds="both coefficients symbolic, symbolic probe element", encodes=["decoding::chien_search"])
-reg("chien_small", "ecdec", ["C05"], cap=300, bounds="empty and constant polynomials", encodes=["decoding::chien_search"])
-reg("chien_quad", "ecdec", ["C03", "C09"], cap=1800, mem_gb=16, role="attempt", tier="thorough", bounds="three symbolic coefficients, leading != 0; full 255-step search", encodes=["decoding::chien_search"])
+    reg("rs_step_" + n, "ec", ["C06"], cap=1200, mem_gb=16,
+        bounds="degree(s) %s: one LFSR step from an ARBITRARY register state (k symbolic bytes) with an arbitrary data byte == (old*x + a*x^k) mod g coefficient-wise in shift-xor arithmetic (one inductive step => any data length)" % n.replace("_", "..")
+        , encodes=["errorcode::ecc_block", "errorcode::generator"])
+reg("rs_il_sq10", "ec", ["C06", "C01"], cap=600, bounds="10x10: all data zero except the last codeword (symbolic): error codewords == a*x^k mod g at the interleaved positions", encodes=["errorcode::encode_error", "errorcode::ecc_block"])
+reg("rs_il_r8x32", "ec", ["C06"], cap=900, tier=T, bounds="8x32: same", encodes=["errorcode::encode_error"])
+for n in ("sq52", "sq64", "sq144"):
+    reg("rs_il_" + n, "ec", ["C06", "C01"], cap=3600, mem_gb=28, tier=T, role="attempt",
+        bounds="%s (interleaved blocks): all data codewords zero except the last one of every block (symbolic)" % n, encodes=["errorcode::encode_error", "errorcode::ecc_block"])
+
+# --------------------------------------------------------------------------- Reed-Solomon decoder (C03, C09, C05)
+reg("synd_eval", "ecdec", ["C09", "C03", "C06"], profiles=["rel"], cap=900, bounds="4 symbolic codewords, 3 syndromes == Horner at 2^1..2^3 in shift-xor arithmetic", encodes=["decoding::primitive_element_evaluation"])
+reg("chien_lin", "ecdec", ["C05", "C03", "C09"], profiles=["dev", "rel"], cap=600, bounds="linear polynomials: both coefficients symbolic, symbolic probe element: exactly the root set, no division by zero", encodes=["decoding::chien_search"])
+reg("chien_quad", "ecdec", ["C03", "C09"], cap=3600, mem_gb=20, role="attempt", tier=T, bounds="three symbolic coefficients, leading != 0; full 255-step search", encodes=["decoding::chien_search"])
 LD = ["syndrome_based::find_inv_error_locations_levinson_durbin"]
-for n in ("k2_z0","k2_z1","k3_z0","k3_z1","k3_z2","k4_z0","k4_z1","k4_z2","k4_z3","k5_z0","k5_z0_ff","k5_z1","k5_z2","k5_z3","k5_z4","k6_z0","k6_z1","k6_z2","k7_z0","k7_z1","k7_z2","k7_z3"):
-    reg("ld_np_" + n, "synd", ["C05"], profiles=["rel", "dev"], cap=900, bounds="syndrome vector of length k, z literal leading zeros, first non-zero syndrome a constant, the rest symbolic; safety only", encodes=LD)
-for n in ("k2_z0","k3_z0","k4_z0","k4_z1","k5_z0","k5_z1","k6_z0","k6_z1","k6_z2","k7_z2"):
-    reg("ld_ct_" + n, "synd", ["C09"], profiles=["rel"], cap=1800, bounds="same inputs; Ok(w) satisfies rows 0..t-1 of the Hankel system", encodes=LD)
-reg("ld_scale", "synd", ["C03", "C09"], profiles=["rel"], cap=900, role="assumption-check", bounds="k=4, factors 2, 0x80, 0xFF, 3 symbolic syndromes", encodes=LD)
-for n in ("bp_1", "bp_2", "bp_3"):
-    reg(n, "synd", ["C03", "C05"], profiles=["rel"], cap=900, bounds="1..3 distinct non-zero locators and arbitrary error values", encodes=["syndrome_based::find_error_values_bp"])
+for n in ("k2_z0", "k2_z1", "k3_z0", "k3_z1", "k3_z2", "k4_z0", "k4_z1", "k4_z2", "k4_z3", "k5_z0", "k5_z0_ff", "k5_z1", "k5_z2", "k5_z3", "k5_z4"):
+    reg("ld_np_" + n, "synd", ["C05"], profiles=["rel"], cap=900,
+        bounds="Levinson-Durbin on a syndrome vector of length k with z literal leading zeros (%s), first non-zero syndrome a constant, the rest symbolic: no panic, locator shape; Err only if the first t syndromes vanish" % n, encodes=LD)
+for n in ("k6_z0", "k6_z1", "k6_z2", "k7_z0", "k7_z1", "k7_z2", "k7_z3"):
+    reg("ld_np_" + n, "synd", ["C05"], profiles=["rel"], tier=T, cap=1800, bounds="same, %s" % n, encodes=LD)
+for n, tier, role in (("k2_z0", Q, "lemma"), ("k3_z0", Q, "lemma"), ("k4_z1", Q, "lemma"), ("k5_z1", Q, "lemma"), ("k7_z2", T, "lemma"),
+                      ("k4_z0", T, "attempt"), ("k5_z0", T, "attempt"), ("k6_z0", T, "attempt"), ("k6_z1", T, "attempt"), ("k6_z2", T, "attempt")):
+    reg("ld_ct_" + n, "synd", ["C09"], profiles=["rel"], tier=tier, role=role, cap=900 if tier == Q else 3600,
+        bounds="Levinson-Durbin, %s: Ok(w) satisfies rows 0..t-1 of the Hankel system (the contract decode_gen relies on)" % n, encodes=LD)
+reg("ld_scale", "synd", ["C03", "C09"], profiles=["rel"], cap=3600, tier=T, role="attempt", bounds="k=4, scaling factors 2, 0x80, 0xFF, 3 symbolic syndromes: same locator", encodes=LD)
+reg("bp_1", "synd", ["C03", "C05"], profiles=["rel"], cap=600, bounds="Bjoerck-Pereyra, 1 locator, arbitrary value", encodes=["syndrome_based::find_error_values_bp"])
+reg("bp_2", "synd", ["C03"], profiles=["rel"], cap=3600, tier=T, role="attempt", bounds="Bjoerck-Pereyra, 2 distinct non-zero locators, arbitrary values", encodes=["syndrome_based::find_error_values_bp"])
 GEN = ["syndrome_based::decode_gen", "decoding::primitive_element_evaluation", "decoding::chien_search", "syndrome_based::find_error_values_bp"] + LD
-for n in ("k2_b0", "k2_b1", "k3_b0", "k3_b1"):
-    reg("cap_gen_" + n, "synd", ["C03"], profiles=["rel"], cap=1200, bounds="toy interleaved code (stride 2, 5 data codewords, k EC per block): zero codeword + 1 error at a symbolic position/value in the block, symbolic garbage in the other block", encodes=GEN)
+TOY = "toy interleaved code (stride 2, 3 data codewords split 2+1 -> unequal blocks, k error codewords per block)"
+for n, tier in (("k2_b0", T), ("k2_b1", T), ("k3_b0", Q), ("k3_b1", Q)):
+    reg("cap_gen_" + n, "synd", ["C03"], profiles=["rel"], tier=tier, cap=2400, mem_gb=16,
+        bounds=TOY + " %s: zero codeword + 1 error (= floor(k/2)) at a symbolic position (data or EC part) with a symbolic value, symbolic garbage in the other block: Ok, block restored, other block untouched" % n, encodes=GEN)
+for n, tier in (("k3_z1_b0", Q), ("k3_z2_b1", Q), ("k2_z0_b0", T), ("k3_z0_b0", T), ("k3_z0_b1", T)):
+    reg("ok_w2_" + n, "synd", ["C09", "C05"], profiles=["rel"], tier=tier, cap=3600, mem_gb=16,
+        bounds=TOY + " %s: zero codeword + 2 errors (one beyond capacity) at symbolic positions/values, garbage in the other block, z leading zero syndromes: Ok => codeword" % n, encodes=GEN)
 for n in ("k2_z0_b0", "k2_z1_b1", "k3_z0_b0", "k3_z0_b1", "k3_z1_b0", "k3_z2_b1"):
-    reg("ok_gen_" + n, "synd", ["C09", "C05"], profiles=["rel"], cap=2400, mem_gb=16, bounds="toy interleaved code, EVERY byte of the received word symbolic, z leading zero syndromes", encodes=GEN)
-for n in ("k2_z0_b0", "k3_z0_b0", "k3_z0_b1", "k3_z1_b0", "k3_z2_b1"):
-    reg("ok_w2_" + n, "synd", ["C09", "C05"], profiles=["rel"], cap=2400, mem_gb=16, bounds="toy interleaved code: zero codeword + 2 errors (t+1) at symbolic positions/values in the block, garbage in the other block", encodes=GEN)
+    reg("ok_gen_" + n, "synd", ["C09", "C05"], profiles=["rel"], tier=T, role="attempt", cap=3600, mem_gb=20,
+        bounds=TOY + " %s: EVERY byte of the received word symbolic (finder form)" % n, encodes=GEN)
 for n in ("ok_contract_k2", "ok_contract_k3"):
-    reg(n, "synd", ["C09", "C05"], profiles=["rel"], cap=2400, mem_gb=16, bounds="toy code, every byte symbolic, locator search replaced by its contract", encodes=GEN[:4])
-reg("gen_identity", "synd", ["C01", "C03"], profiles=["rel"], cap=900, bounds="toy code k=3, arbitrary codeword of block 0", encodes=GEN[:2])
-for n in ("ascii_3", "c40_2", "c40_3", "text_2", "x12_3", "x12_4", "x12_5", "edifact_2", "edifact_3", "edifact_4", "edifact_5", "b256_2"):
-    reg("cpl_" + n, "plan", ["C18", "C11"], cap=1800, mem_gb=16, bounds="", encodes=[])
-reg("stub_consts_ok", "sym", ["C08", "C05", "C12"], cap=300, role="stub-validation", bounds="closed terms + symbolic index over the 48 sizes", encodes=SYM[:2])
+    reg(n, "synd", ["C09", "C05"], profiles=["rel"], tier=T, role="attempt", cap=3600, mem_gb=20,
+        bounds=TOY + ": every byte symbolic, locator search replaced by its contract", encodes=GEN[:4])
+reg("gen_identity", "synd", ["C01", "C03"], profiles=["rel"], tier=T, cap=2400, bounds=TOY + " k=3: arbitrary codeword of block 0: Ok, nothing written, locator search not called", encodes=GEN[:2])
+
+# --------------------------------------------------------------------------- placement (C07), rendering / parsing (C08)
+PL = ["placement::IndexTraversal::run", "placement::IndexTraversal::utah", "placement::IndexTraversal::corner1..4", "placement::IndexTraversal::idx"]
+_q_shapes = ("sq10", "sq12", "sq14", "sq16", "r8x18", "r8x32", "r12x26", "r8x48")
+for n in ("sq10", "sq12", "sq14", "sq16", "sq18", "sq20", "sq22", "sq24", "sq26", "sq32", "sq36", "sq40", "sq44", "r8x18", "r8x32", "r12x26", "r12x36", "r16x36", "r16x48",
+          "r8x48", "r8x64", "r8x80", "r8x96", "r8x120", "r8x144", "r12x64", "r12x88", "r16x64", "r20x36", "r20x44", "r20x64", "r22x48", "r24x48", "r24x64", "r26x40", "r26x48", "r26x64"):
+    reg("pl_idx_" + n, "place", ["C07", "C01"], tier=Q if n in _q_shapes else T, cap=1800 if n in _q_shapes else 3600, mem_gb=16,
+        bounds="closed term, shape %s: the complete traversal vs Annex F (+ DMRE row wrap): every (codeword, bit) on the standard's module, bijection, untouched = fixed corner pattern" % n, encodes=PL)
+reg("pl_cell_any", "place", ["C07"], cap=2400, tier=T, bounds="symbolic even mapping matrix 6..=132 x 6..=132, symbolic (i, j) inside it: utah / corner1-4 / idx vs the standard's module()", encodes=PL[1:])
+for n, tier in (("sq10", T), ("sq12", T), ("r8x18", T)):
+    reg("pl_rw_" + n, "place", ["C07", "C01"], cap=3600, mem_gb=24, tier=tier, role="attempt", bounds="%s: all codewords of the symbol symbolic: module == bit of the codeword at the standard's position; codewords() inverts" % n,
+        encodes=["placement::MatrixMap::new_with_codewords", "copy_from_codewords", "traverse_mut", "bits_mut", "write_padding", "codewords", "traverse"] + PL)
+for n, tier in (("sq10", Q), ("r8x18", Q), ("r8x32", T), ("r12x36", T), ("r8x64", T), ("sq32", T)):
+    reg("fd_render_" + n, "place", ["C08", "C01"], cap=2400, mem_gb=16, tier=tier, role="attempt" if n == "sq32" else "lemma",
+        bounds="%s: every mapping-matrix entry symbolic: each module of bitmap() is the standard's finder/clock/alignment value or the entry at the region-offset position" % n, encodes=["placement::MatrixMap::bitmap", "placement::MatrixMap::new"])
 TFB = ["placement::MatrixMap::try_from_bits", "placement::MatrixMap::bitmap"]
 for n in ("sq10", "sq12", "r8x18", "r8x32"):
-    reg("fd_strict_" + n, "place", ["C08", "C05"], cap=2400, mem_gb=20, stubbing=True, unwindset=[("btree", 4)], bounds="every pixel of the shape symbolic; SymbolList::all / block_setup / has_padding_modules stubbed to this one size", encodes=TFB)
+    reg("fd_strict_" + n, "place", ["C08", "C05"], cap=3600, mem_gb=24, tier=T, role="attempt", stubbing=True, unwindset=[("btree", 4)],
+        bounds="%s: every pixel symbolic; accepted => re-rendering reproduces it; SymbolList::all / block_setup / has_padding_modules stubbed to this one size" % n, encodes=TFB)
 for n in ("r8x32", "sq12"):
-    reg("fd_parse_" + n, "place", ["C08", "C01"], cap=2400, mem_gb=20, stubbing=True, unwindset=[("btree", 4)], bounds="every mapping-matrix entry symbolic; same stubs", encodes=TFB)
-reg("fd_ragged_r8x18", "place", ["C08", "C05"], cap=600, stubbing=True, unwindset=[("btree", 4)], bounds="8x18 symbol + 1 / + 17 stray pixels, width 0; pixel values symbolic", encodes=TFB[:1])
-reg("fd_reject_small", "place", ["C08", "C05"], cap=900, stubbing=True, unwindset=[("btree", 4)], bounds="symbolic width 0..=12, length 0..=40; SymbolList::all stubbed to the two smallest sizes", encodes=TFB[:1])
+    reg("fd_parse_" + n, "place", ["C08", "C01"], cap=3600, mem_gb=24, tier=T, role="attempt", stubbing=True, unwindset=[("btree", 4)],
+        bounds="%s: every mapping-matrix entry symbolic: try_from_bits(bitmap(m)) == (m, size); same stubs" % n, encodes=TFB)
+reg("fd_ragged_r8x18", "place", ["C08", "C05"], cap=600, stubbing=True, unwindset=[("btree", 4)],
+    bounds="8x18 symbol + 1 / + 17 stray pixels -> DataSize, width 0 -> ZeroWidth; pixel values symbolic", encodes=TFB[:1])
+reg("fd_reject_small", "place", ["C08", "C05"], cap=900, stubbing=True, unwindset=[("btree", 4)],
+    bounds="arrays of 36 and 25 symbolic pixels, symbolic width 0..=12: ZeroWidth / DataSize / SymbolSize exactly; SymbolList::all stubbed to the two smallest sizes", encodes=TFB[:1])
+
 H = [h for h in ALL]
 
 PROPS = {}
+
+GLUE_PIPE = "planner::optimize, GenericDataEncoder::codewords (dispatch loop, latch push, planned_switches bookkeeping) and decode_parts / DataMatrix::decode plumbing are NOT symbolically executed (CBMC does not finish them even for one symbolic byte); they are read, not solved"
+
+PROPS = {
+    "C01": dict(
+        text="compositional bounded model checking: each stage of encode -> symbol -> decode is an inverse pair on the real functions (mode encoders vs independent decoder, macro/FNC1 prelude and cursor, padding, RS identity on codewords, placement traversal, rendering)",
+        outside=[GLUE_PIPE, "mode runs longer than the stated character counts; symbol capacities above 43 in the encoder contexts",
+                 "try_from_bits (parse direction) only as thorough-tier attempts"],
+        assumptions=["HEnc (array-backed EncodingContext) re-states the contracts of GenericDataEncoder's context methods: symbol_size_left = first capacity >= need, maybe_switch_mode true exactly at the planned character count, set_ascii_until_end",
+                     "C04 lemmas (crate decoder agrees with the independent decoder) close the loop to the crate's own decoder"]),
+    "C02": dict(
+        text="bounded model checking of the six real mode encoders (generic over the context trait) against an independent ISO/IEC 16022 decoder, plus padding, ECI designators and symbol selection lemmas",
+        outside=[GLUE_PIPE, "streams longer than the stated bounds", "the plan actually chosen by the optimiser (the context covers EVERY plan with one switch to ASCII)"],
+        assumptions=["HEnc as in C01", "preconditions on characters handed to X12 / EDIFACT are those Plan::step enforces (native X12 triples, EDIFACT-encodable)"]),
+    "C03": dict(
+        text="bounded model checking of the real decode_gen (syndromes, Levinson-Durbin, Chien, Bjoerck-Pereyra, position mapping) on scaled-down interleaved codes with unequal blocks, every error position and value within the capacity symbolic",
+        outside=["the 48 real sizes themselves (k >= 5; the full Chien search and t >= 2 are beyond CBMC here): the scaled codes k in {2,3}, t = 1 share the code of decode_gen, not the parameters",
+                 "decode(): the three lines that slice data[block..], error[block..] and pass stride are read, not solved",
+                 "scaling invariance of Levinson-Durbin (normalising closure) is checked for three factors only (attempt), otherwise a mathematical argument"],
+        assumptions=["ld_norm: the real Levinson-Durbin is called on syndromes divided by the first non-zero one with literal leading entries, one query per leading-zero count"]),
+    "C04": dict(
+        text="bounded model checking of the five real mode decoders + ASCII decoder against an independent ISO/IEC 16022 decoder on arbitrary codeword runs (differential, one direction: reference accepts => crate accepts with the same result)",
+        outside=["decode_parts dispatch loop and macro/FNC1 prelude (glue: not a separate function; not symbolically executable)", "runs longer than the stated codeword counts (C40/Text: covered inductively over pairs by the *_st harnesses)"],
+        assumptions=["conformance is defined by the reference decoder harness/ref/iso.rs, itself checked against the reference encoder pieces (oracle_* harnesses)"]),
+    "C05": dict(
+        text="bounded model checking for panics / overflow / division by zero / out-of-bounds / non-termination of every decoding stage that CBMC can execute, in the dev profile (overflow checks, debug assertions) and a release-like profile (wrapping arithmetic)",
+        outside=["DataMatrix::decode / decode_parts / errorcode::decode as wholes", "Levinson-Durbin in the dev profile for z = 0 (its debug-only self checks are algebraic identities the SAT solver does not finish) and beyond k = 7",
+                 "the full 255-step Chien search (locators of degree >= 2)", "try_from_bits beyond the rejection paths (strictness harnesses are attempts)"],
+        assumptions=["unwinding assertions on: every loop of the encoded functions terminates within the stated bound"]),
+    "C06": dict(
+        text="bounded model checking: GF(256) tables == shift-xor arithmetic (all pairs); all 25 generator polynomials == prod (x + 2^i) (closed terms); one LFSR step from an arbitrary register state for all 25 degrees (inductive step); interleaving on 10x10",
+        outside=["interleaving / unequal blocks of the ten multi-block sizes: thorough-tier attempts only (encode_error on >= 204 data codewords exhausts memory in symbolic execution)"],
+        assumptions=["additivity of the LFSR step lifts one-step + zero-prefix results to arbitrary data"]),
+    "C07": dict(
+        text="bounded model checking: IndexTraversal::run vs the standards' placement program as closed terms per shape; loop-free cell functions for symbolic geometry",
+        outside=["the eleven largest squares (48x48 .. 144x144): CBMC needs > 20 GB to fold their traversal; covered only by pl_cell_any (symbolic geometry of utah/corner/idx) plus the size-independent sweep skeleton exercised on the smaller shapes",
+                 "write/read with symbolic codeword contents (pl_rw_*): attempts"],
+        assumptions=[]),
+    "C08": dict(
+        text="bounded model checking of MatrixMap::bitmap on symbolic contents against the standard's finder/clock/alignment formula, and of try_from_bits' rejection paths; strict parsing as thorough-tier attempts with the size lookup stubbed to one size",
+        outside=["parse direction for all sizes (SymbolList::all() cannot be built symbolically)", "rendering of sizes beyond those listed"],
+        assumptions=["stubs: SymbolList::all -> one size, SymbolSize::block_setup / has_padding_modules -> that size's constants (validated by stub_consts_ok; sound because dimensions identify a size: cat_ord)"]),
+    "C09": dict(
+        text="bounded model checking: Ok => codeword on scaled-down codes with the real decode_gen for error patterns up to one beyond the correction capacity; Levinson-Durbin's contract (Hankel rows 0..t-1) as separate lemmas",
+        outside=["real sizes (k >= 5)", "patterns of weight > t+1 on the proving side (finder attempts look there)", "Levinson-Durbin contract for k >= 4 with z = 0 (attempts)"],
+        assumptions=["codeword test uses the crate's syndrome evaluation, tied to Horner evaluation at 2^1..2^k by synd_eval", "ld_norm as in C03"]),
+    "C11": dict(
+        text="bounded model checking of the assertion / unreachable / panic / overflow sites reachable through the mode encoders, the per-mode cost models, the macro prelude, the ECI writer and the symbol-list queries (None iff empty)",
+        outside=[GLUE_PIPE, "the 'ASCII disabled' start-up of optimize and the encoder/planner character-count agreement asserted in maybe_switch_mode: they live in optimize and are not reachable by these queries"],
+        assumptions=["HEnc / HPlan as in C01 / C18"]),
+    "C12": dict(
+        text="bounded model checking over a symbolic index of all 48 sizes against tables transcribed from the standards; Ord laws; filters with symbolic range bounds; list queries with a symbolic need",
+        outside=["default() / with_extended_rectangles() as B-tree values (48 inserts are beyond CBMC): instead SYMBOL_SIZES lists each variant once and is_dmre is exact; the two constructors are from_iter of that array with/without the filter (read)",
+                 "filters on lists of more than one symbol and compositions of filters"],
+        assumptions=["BTreeSet::from_iter / retain are trusted beyond the one-symbol lists executed"]),
+    "C14": dict(
+        text="bounded model checking of the Latin-1 helpers on every scalar value / byte, and of encode_str's dispatch on every one-character string with the downstream encoder stubbed by a recorder",
+        outside=[GLUE_PIPE, "strings of more than one character in the dispatch (attempt for two)", "eci::convert span re-assembly (not finished by CBMC)"],
+        assumptions=["stub: DataMatrixBuilder::encode_eci records its arguments"]),
+    "C15": dict(
+        text="bounded model checking: write_eci/read_eci over all 1,000,000 numbers and all 1-3 codeword designators; the three 8-bit tables over all 256 bytes against rule-based oracles; ECI 26/27 on all 0..3-byte sequences",
+        outside=["UTF-8 sequences of 4 bytes (attempt)", "extended_eci feature (not built)"],
+        assumptions=[]),
+    "C16": dict(
+        text="bounded model checking of with_size + use_macro_if_possible + eat/backup/rest on the real GenericDataEncoder for every input of the listed lengths",
+        outside=["inputs longer than 12 bytes (the guard looks at the first 7 and last 2 bytes only)", "decoder side of the macro envelope (decode_parts prelude: glue)", GLUE_PIPE],
+        assumptions=[]),
+    "C18": dict(
+        text="bounded model checking of the coupling between each mode's end-of-data cost model and its real encoder: the encoder never needs a larger symbol than ceil(cost) selects",
+        outside=[GLUE_PIPE, "plan list shape (enabled modes only, monotone positions, terminator) and latch/plan correspondence of whole streams", "runs with a mid-run switch (mode_switch_cost / write_unlatch are exercised for panics only)"],
+        assumptions=["HPlan (array-backed ContextInformation) mirrors planner::generic::Context: symbol_size_left over the same capacity table, write() accumulates"]),
+}
